@@ -195,3 +195,535 @@ Section SortProofs.
     specialize (H Hi' Hl). lia.
   Qed.
 End SortProofs.
+
+(** ** the steepest-descent loop *)
+Definition keyT (r : evalT) : Z * Z := (cv r, score r).
+(** lexicographic order on (constraint violation, score) *)
+Definition lexlt (a b : Z * Z) : Prop := fst a < fst b \/ (fst a = fst b /\ snd a < snd b).
+Definition lexle (a b : Z * Z) : Prop := fst a < fst b \/ (fst a = fst b /\ snd a <= snd b).
+Lemma lexle_not_lexlt a b : lexle a b <-> ~ lexlt b a.
+Proof. unfold lexle, lexlt. lia. Qed.
+
+Lemma NoDup_app_intro {A} (a b : list A) : NoDup a -> NoDup b -> (forall x, In x a -> ~ In x b) -> NoDup (a ++ b).
+Proof.
+  induction 1 as [|x t Hx Ht IH]; cbn [app]; intros Hb Hd; [exact Hb|].
+  constructor.
+  - intros Hin. apply in_app_or in Hin as [H|H]; [contradiction | apply (Hd x); [now left | exact H]].
+  - apply IH; [exact Hb|]. intros y Hy. apply Hd. now right.
+Qed.
+
+(** *** from a feasible start *)
+Lemma complement_In cand s x : In x (complement cand s) <-> In x cand /\ ~ In x s.
+Proof. unfold complement. rewrite filter_In, negb_true_iff, memZ_false. tauto. Qed.
+
+Lemma start_state cand k s : NoDup cand -> feasible cand k s ->
+  NoDup (s ++ complement cand s) /\ forall x, In x (s ++ complement cand s) <-> In x cand.
+Proof.
+  intros Hc (Hn & Hi & _). split.
+  - apply NoDup_app_intro; [exact Hn | apply NoDup_filter, Hc |]. intros x Hx Hx'. apply complement_In in Hx'. tauto.
+  - intros x. rewrite in_app_iff, complement_In. split; [intros [H|[H _]]; auto|].
+    intros H. destruct (in_dec Z.eq_dec x s); tauto.
+Qed.
+
+
+Section ClimbProofs.
+  Variable ev : list Z -> evalT.
+
+  Lemma pairs_In s w i j : In (i, j) (pairs s w) <-> (i < length s)%nat /\ (j < length w)%nat.
+  Proof. unfold pairs. rewrite in_prod_iff, !in_seq. lia. Qed.
+
+  (** invariant of the proposal scan: the running best is a lexicographic minimum of the start value and
+      all proposals seen; it either is the start state or a strictly better proposal that was seen *)
+  Lemma scan_fold s w l : forall b0,
+    let b := fold_left (step ev s w) l b0 in
+    lexle (keyT (snd b)) (keyT (snd b0)) /\
+    (forall ij, In ij l -> lexle (keyT (snd b)) (keyT (ev (prop s w ij)))) /\
+    (b = b0 \/ exists ij, In ij l /\ b = (Some ij, ev (prop s w ij)) /\ lexlt (keyT (snd b)) (keyT (snd b0))).
+  Proof.
+    induction l as [|ij l IH]; intros b0; cbn [fold_left].
+    - cbn zeta. split; [unfold lexle; lia|]. split; [intros ? []|]. now left.
+    - specialize (IH (step ev s w b0 ij)). cbn zeta in *.
+      set (b1 := step ev s w b0 ij) in *. set (b := fold_left (step ev s w) l b1) in *.
+      destruct IH as (I1 & I2 & I3).
+      assert (S1 : (b1 = b0 /\ lexle (keyT (snd b0)) (keyT (ev (prop s w ij)))) \/
+                   (b1 = (Some ij, ev (prop s w ij)) /\ lexlt (keyT (ev (prop s w ij))) (keyT (snd b0)))).
+      { unfold b1, step. cbn zeta.
+        destruct (Z.ltb_spec (cv (ev (prop s w ij))) (cv (snd b0))) as [L|G].
+        - right. split; [reflexivity|]. unfold lexlt, keyT; cbn [fst snd]. lia.
+        - destruct (Z.eqb_spec (cv (ev (prop s w ij))) (cv (snd b0))) as [E|NE]; cbn [andb].
+          + destruct (Z.ltb_spec (score (ev (prop s w ij))) (score (snd b0))) as [L2|G2].
+            * right. split; [reflexivity|]. unfold lexlt, keyT; cbn [fst snd]. lia.
+            * left. split; [reflexivity|]. unfold lexle, keyT; cbn [fst snd]. lia.
+          + left. split; [reflexivity|]. unfold lexle, keyT; cbn [fst snd]. lia. }
+      unfold lexle, lexlt, keyT in *; cbn [fst snd] in *.
+      destruct S1 as [[E1 L1]|[E1 L1]].
+      + rewrite E1 in *. split; [lia|]. split.
+        * intros ij' [<-|H]; [lia | now apply I2].
+        * destruct I3 as [I3|(ij' & Hin & Eb & Lb)]; [now left|]. right. exists ij'. split; [now right|]. split; [exact Eb | lia].
+      + rewrite E1 in I1, I3. cbn [snd] in I1, I3. split; [lia|]. split.
+        * intros ij' [<-|H]; [lia | now apply I2].
+        * right. destruct I3 as [I3|(ij' & Hin & Eb & Lb)].
+          -- exists ij. split; [now left|]. rewrite I3. cbn [snd]. split; [reflexivity | lia].
+          -- exists ij'. split; [now right|]. split; [exact Eb | lia].
+  Qed.
+
+  Lemma scan_none s w g r : scan ev s w g = (None, r) ->
+    r = g /\ forall ij, In ij (pairs s w) -> lexle (keyT g) (keyT (ev (prop s w ij))).
+  Proof.
+    unfold scan. intros E. destruct (scan_fold s w (pairs s w) (None, g)) as (_ & I2 & I3). cbn zeta in *.
+    rewrite E in *. cbn [snd] in *. destruct I3 as [I3|(ij & _ & Eb & _)]; [|discriminate].
+    inversion I3; subst. split; [reflexivity | exact I2].
+  Qed.
+
+  Lemma scan_some s w g ij r : scan ev s w g = (Some ij, r) ->
+    In ij (pairs s w) /\ r = ev (prop s w ij) /\ lexlt (keyT r) (keyT g) /\
+    forall ij', In ij' (pairs s w) -> lexle (keyT r) (keyT (ev (prop s w ij'))).
+  Proof.
+    unfold scan. intros E. destruct (scan_fold s w (pairs s w) (None, g)) as (_ & I2 & I3). cbn zeta in *.
+    rewrite E in *. cbn [snd] in *. destruct I3 as [I3|(ij' & Hin & Eb & Lb)]; [discriminate|].
+    inversion Eb; subst. repeat split; assumption.
+  Qed.
+
+  (** everything the loop guarantees about its result *)
+  Lemma climb_spec fuel : forall s w g s' w' g', climb ev fuel s w g = Some (s', w', g') -> g = ev s ->
+    g' = ev s' /\ Permutation (s' ++ w') (s ++ w) /\ length s' = length s /\ length w' = length w /\
+    lexle (keyT g') (keyT g) /\
+    forall i j, (i < length s')%nat -> (j < length w')%nat ->
+      lexle (keyT (ev s')) (keyT (ev (set_nth i s' (nth j w' 0)))).
+  Proof.
+    induction fuel as [|f IH]; intros s w g s' w' g' E Hg; cbn [climb] in E; [discriminate|].
+    destruct (scan ev s w g) as [[ij|] r] eqn:Es.
+    - destruct (scan_some _ _ _ _ _ Es) as (Hin & Er & Hlt & _).
+      destruct ij as [i j]. apply pairs_In in Hin as [Hi Hj]. cbn [fst snd] in E.
+      specialize (IH _ _ _ _ _ _ E Er). destruct IH as (A & B & C & D & L & F).
+      unfold prop in B, C. cbn [fst snd] in B, C. rewrite set_nth_length in C, D.
+      repeat split; try assumption.
+      + rewrite B. now apply swap_perm.
+      + unfold lexle, lexlt in *. lia.
+    - inversion E; subst. destruct (scan_none _ _ _ _ Es) as (-> & Hmin).
+      repeat split; try reflexivity; [unfold lexle; lia|].
+      intros i j Hi Hj. apply (Hmin (i, j)). now apply pairs_In.
+  Qed.
+
+  (** more fuel never changes a result *)
+  Lemma climb_mono fuel : forall s w g res, climb ev fuel s w g = Some res -> forall fuel', (fuel <= fuel')%nat -> climb ev fuel' s w g = Some res.
+  Proof.
+    induction fuel as [|f IH]; intros s w g res E fuel' Hle; cbn [climb] in E; [discriminate|].
+    destruct fuel' as [|f']; [lia|]. cbn [climb].
+    destruct (scan ev s w g) as [[ij|] r]; [|exact E]. apply (IH _ _ _ _ E). lia.
+  Qed.
+
+  (** all length-k lists over a universe *)
+  Fixpoint lists_of (k : nat) (u : list Z) : list (list Z) :=
+    match k with
+    | O => [[]]
+    | S k' => flat_map (fun x => map (cons x) (lists_of k' u)) u
+    end.
+  Lemma lists_of_complete u : forall k l, length l = k -> incl l u -> In l (lists_of k u).
+  Proof.
+    induction k as [|k IH]; intros l Hl Hi.
+    - destruct l; [now left | discriminate].
+    - destruct l as [|x t]; [discriminate|]. cbn [lists_of]. apply in_flat_map. exists x. split; [apply Hi; now left|].
+      apply in_map, IH; [cbn in Hl; lia | intros z Hz; apply Hi; now right].
+  Qed.
+  Lemma lists_of_length u : forall k, length (lists_of k u) = (length u ^ k)%nat.
+  Proof.
+    induction k as [|k IH]; [reflexivity|]. cbn [lists_of Nat.pow].
+    assert (G : forall v, length (flat_map (fun x => map (cons x) (lists_of k u)) v) = (length v * length (lists_of k u))%nat).
+    { induction v as [|x v IHv]; [reflexivity|]. cbn [flat_map length]. rewrite app_length, map_length, IHv. lia. }
+    rewrite G, IH. reflexivity.
+  Qed.
+
+  (** termination: the key strictly decreases, so no decision vector is visited twice; all visited vectors
+      are length-k lists over the members of s ++ w *)
+  Lemma climb_terminates_aux (u : list Z) (k : nat) fuel : forall seen s w g,
+    g = ev s -> length s = k -> incl s u -> incl w u ->
+    NoDup seen -> incl seen (lists_of k u) ->
+    (forall t, In t seen -> lexlt (keyT (ev s)) (keyT (ev t))) ->
+    (length (lists_of k u) <= fuel + length seen)%nat ->
+    climb ev fuel s w g <> None.
+  Proof.
+    induction fuel as [|f IH]; intros seen s w g Hg Hl Hs Hw Hn Hseen Hbetter Hfuel.
+    - exfalso.
+      assert (Hs_in : In s (lists_of k u)) by (apply lists_of_complete; assumption).
+      assert (Hs_new : ~ In s seen). { intros H. specialize (Hbetter s H). unfold lexlt in Hbetter. lia. }
+      assert (Hle : (length (s :: seen) <= length (lists_of k u))%nat).
+      { apply NoDup_incl_length; [now constructor|]. intros z [<-|Hz]; [exact Hs_in | now apply Hseen]. }
+      cbn [length] in Hle. lia.
+    - cbn [climb]. destruct (scan ev s w g) as [[ij|] r] eqn:Es; [|discriminate].
+      destruct (scan_some _ _ _ _ _ Es) as (Hin & Er & Hlt & _). destruct ij as [i j].
+      apply pairs_In in Hin as [Hi Hj]. cbn [fst snd].
+      assert (Hs_in : In s (lists_of k u)) by (apply lists_of_complete; assumption).
+      assert (Hs_new : ~ In s seen). { intros H. specialize (Hbetter s H). unfold lexlt in Hbetter. lia. }
+      assert (Hperm := swap_perm s w i j Hi Hj).
+      apply (IH (s :: seen)).
+      + exact Er.
+      + unfold prop. cbn [fst snd]. now rewrite set_nth_length.
+      + intros z Hz. unfold prop in Hz. cbn [fst snd] in Hz.
+        assert (Hz' : In z (s ++ w)) by (apply (Permutation_in _ Hperm), in_or_app; now left).
+        apply in_app_or in Hz' as [H|H]; [now apply Hs | now apply Hw].
+      + intros z Hz.
+        assert (Hz' : In z (s ++ w)) by (apply (Permutation_in _ Hperm), in_or_app; now right).
+        apply in_app_or in Hz' as [H|H]; [now apply Hs | now apply Hw].
+      + now constructor.
+      + intros z [<-|Hz]; [exact Hs_in | now apply Hseen].
+      + rewrite <- Er. subst g. intros t [<-|Ht]; [exact Hlt|]. specialize (Hbetter t Ht). unfold lexlt in *. lia.
+      + cbn [length]. lia.
+  Qed.
+
+  Lemma climb_terminates s w : forall fuel, (length (s ++ w) ^ length s <= fuel)%nat -> climb ev fuel s w (ev s) <> None.
+  Proof.
+    intros fuel Hf. apply (climb_terminates_aux (s ++ w) (length s) fuel []); try reflexivity.
+    - intros z Hz. apply in_or_app. now left.
+    - intros z Hz. apply in_or_app. now right.
+    - constructor.
+    - intros z [].
+    - intros t [].
+    - rewrite lists_of_length. cbn [length]. lia.
+  Qed.
+
+  (** both hill climbers: feasible, truthful, locally optimal result; the exchange partner set stays the
+      exact complement of the solution *)
+  Lemma climb_from_spec fuel cand k start s' w' g' : NoDup cand -> feasible cand k start ->
+    climb_from ev fuel cand start = Some (s', w', g') ->
+    feasible cand k s' /\ g' = ev s' /\ Permutation (s' ++ w') cand /\
+    lexle (keyT (ev s')) (keyT (ev start)) /\
+    forall i e, (i < k)%nat -> In e cand -> ~ In e s' -> ~ lexlt (keyT (ev (set_nth i s' e))) (keyT (ev s')).
+  Proof.
+    intros Hc Hf E. unfold climb_from in E.
+    destruct (climb_spec _ _ _ _ _ _ _ E eq_refl) as (A & B & C & D & L & F).
+    destruct (start_state cand k start Hc Hf) as (Hn0 & Hmem).
+    assert (Hn' : NoDup (s' ++ w')) by (apply (Permutation_NoDup (Permutation_sym B)), Hn0).
+    assert (Hmem' : forall x, In x (s' ++ w') <-> In x cand).
+    { intros x. rewrite <- Hmem. split; apply Permutation_in; [exact B | now apply Permutation_sym]. }
+    destruct Hf as (_ & _ & Hlen).
+    assert (Hfe : feasible cand k s').
+    { repeat split; [now apply NoDup_app_l in Hn' | | lia]. intros x Hx. apply Hmem', in_or_app. now left. }
+    split; [exact Hfe|]. split; [exact A|]. split.
+    - apply NoDup_Permutation; [exact Hn' | exact Hc | exact Hmem'].
+    - split; [subst g'; exact L|].
+      intros i e Hi He Hne. apply lexle_not_lexlt.
+      assert (Hew : In e w'). { apply Hmem' in He. apply in_app_or in He as [H|H]; [contradiction | exact H]. }
+      destruct (In_nth _ _ 0 Hew) as (j & Hj & <-). apply F; lia.
+  Qed.
+End ClimbProofs.
+
+(** ** pymoo_addon operators *)
+Lemma NoDup_map_inj_on {A B} (f : A -> B) (l : list A) :
+  NoDup l -> (forall x y, In x l -> In y l -> f x = f y -> x = y) -> NoDup (map f l).
+Proof.
+  induction 1 as [|x t Hx Ht IH]; intros Hinj; cbn [map]; constructor.
+  - intros Hin. apply in_map_iff in Hin as (y & Ey & Hy). apply Hx.
+    rewrite (Hinj x y); [exact Hy | now left | now right | now symmetry].
+  - apply IH. intros a b Ha Hb. apply Hinj; now right.
+Qed.
+
+(** SubsetRandomSampling / the climber's start: distinct in-range positions give a feasible subset *)
+Lemma sample_feasible cand ix k : NoDup cand -> NoDup ix -> (forall i, In i ix -> (i < length cand)%nat) -> length ix = k ->
+  feasible cand k (sample cand ix).
+Proof.
+  intros Hc Hn Hr Hl. unfold sample. repeat split.
+  - apply NoDup_map_inj_on; [exact Hn|]. intros i j Hi Hj E.
+    apply (proj1 (NoDup_nth cand 0) Hc); auto.
+  - intros z Hz. apply in_map_iff in Hz as (i & <- & Hi). apply nth_In. auto.
+  - now rewrite map_length.
+Qed.
+Lemma subset_sampling_feasible cand ixs k : NoDup cand ->
+  Forall (fun ix => NoDup ix /\ (forall i, In i ix -> (i < length cand)%nat) /\ length ix = k) ixs ->
+  Forall (feasible cand k) (subset_sampling cand ixs).
+Proof.
+  intros Hc H. unfold subset_sampling. rewrite Forall_map. eapply Forall_impl; [|exact H].
+  intros ix (A & B & C). now apply sample_feasible.
+Qed.
+
+(** boolean-mask indexing and masked assignment *)
+Lemma compress_map_filter {A} (f : A -> bool) l : compress (map f l) l = filter f l.
+Proof. induction l as [|x t IH]; cbn; [reflexivity|]. destruct (f x); now rewrite IH. Qed.
+Lemma scatter_length {A} (mask : list bool) : forall (l vals : list A), length (scatter mask l vals) = length l.
+Proof.
+  induction mask as [|m mt IH]; intros [|x t] vals; cbn; try reflexivity.
+  destruct m; [destruct vals|]; cbn; now rewrite IH.
+Qed.
+Lemma scatter_perm {A} (f : A -> bool) : forall (l vals : list A), length vals = length (filter f l) ->
+  Permutation (scatter (map f l) l vals) (filter (fun x => negb (f x)) l ++ vals).
+Proof.
+  induction l as [|x t IH]; intros vals Hl; cbn [map scatter filter].
+  - cbn in Hl. destruct vals; [constructor | discriminate].
+  - cbn [filter] in Hl. destruct (f x) eqn:Ef; cbn [negb].
+    + cbn [length] in Hl. destruct vals as [|v vs]; [discriminate|].
+      rewrite (IH vs) by (cbn [length] in Hl; lia). apply Permutation_middle.
+    + cbn [app]. constructor. now apply IH.
+Qed.
+Lemma scatter_all_false {A} (f : A -> bool) : forall (l vals : list A), (forall x, In x l -> f x = false) ->
+  scatter (map f l) l vals = l.
+Proof.
+  induction l as [|x t IH]; intros vals H; cbn [map scatter]; [reflexivity|].
+  rewrite (H x (or_introl eq_refl)). f_equal. apply IH. intros y Hy. apply H. now right.
+Qed.
+Lemma filter_none {A} (f : A -> bool) (l : list A) : (forall x, In x l -> f x = false) -> filter f l = [].
+Proof.
+  induction l as [|x t IH]; intros H; cbn [filter]; [reflexivity|].
+  rewrite (H x (or_introl eq_refl)). apply IH. intros y Hy. apply H. now right.
+Qed.
+
+(** position-wise mixture of two lists: the structurally recursive form of  dst[mex] = src[mex] *)
+Fixpoint mix (sel : nat -> bool) (dst src : list Z) : list Z :=
+  match dst with
+  | [] => []
+  | x :: t => (if sel O then match src with y :: _ => y | [] => x end else x) :: mix (fun r => sel (S r)) t (tl src)
+  end.
+Lemma mix_ext_early sel sel' : (forall r, sel r = sel' r) -> forall dst src, mix sel dst src = mix sel' dst src.
+Proof.
+  intros H dst. revert sel sel' H. induction dst as [|x t IH]; intros sel sel' H src; cbn [mix]; [reflexivity|].
+  rewrite H. f_equal. apply IH. intros r. apply H.
+Qed.
+Lemma nth_skipn_hd (s : nat) : forall (src : list Z) x, nth s src x = match skipn s src with y :: _ => y | [] => x end.
+Proof. induction s as [|s IH]; intros [|y u] x; cbn; try reflexivity. apply IH. Qed.
+Lemma tl_skipn (s : nat) : forall (src : list Z), tl (skipn s src) = skipn (S s) src.
+Proof.
+  induction s as [|s IH]; intros src.
+  - destruct src; reflexivity.
+  - destruct src as [|y u]; [reflexivity|]. change (skipn (S s) (y :: u)) with (skipn s u).
+    change (skipn (S (S s)) (y :: u)) with (skipn (S s) u). apply IH.
+Qed.
+Lemma assign_at_mix_gen (sel : nat -> bool) src : forall dst s,
+  map (fun rx : nat * Z => if sel (fst rx) then nth (fst rx) src (snd rx) else snd rx) (combine (seq s (length dst)) dst)
+  = mix (fun r => sel (s + r)%nat) dst (skipn s src).
+Proof.
+  induction dst as [|x t IH]; intros s; cbn [length seq combine map mix]; [reflexivity|].
+  cbn [fst snd]. rewrite Nat.add_0_r, <- nth_skipn_hd. f_equal.
+  rewrite IH, tl_skipn. apply mix_ext_early. intros r. f_equal. lia.
+Qed.
+Lemma assign_at_mix mex dst src : assign_at mex dst src = mix (fun r => existsb (Nat.eqb r) mex) dst src.
+Proof.
+  unfold assign_at. rewrite (assign_at_mix_gen (fun r => existsb (Nat.eqb r) mex) src dst 0). reflexivity.
+Qed.
+Lemma mix_length : forall dst sel src, length (mix sel dst src) = length dst.
+Proof. induction dst as [|x t IH]; intros; cbn [mix length]; [reflexivity | now rewrite IH]. Qed.
+Lemma mix_In : forall dst sel src z, In z (mix sel dst src) -> In z dst \/ In z src.
+Proof.
+  induction dst as [|x t IH]; intros sel src z H; cbn [mix] in H; [contradiction|].
+  destruct H as [H|H].
+  - destruct (sel 0%nat); [destruct src as [|y u]|]; subst; cbn; auto.
+  - apply IH in H as [H|H]; [left; now right|]. right. destruct src; [contradiction | now right].
+Qed.
+Lemma mix_NoDup : forall dst sel src, NoDup dst -> NoDup src -> (forall x, In x dst -> ~ In x src) -> NoDup (mix sel dst src).
+Proof.
+  induction dst as [|x t IH]; intros sel src Hd Hs Hdisj; cbn [mix]; [constructor|].
+  inversion Hd as [|? ? Hx Ht]; subst.
+  assert (Hs' : NoDup (tl src)) by (destruct src; [constructor | now inversion Hs]).
+  assert (Hsub : forall z, In z (tl src) -> In z src) by (intros z Hz; destruct src; [contradiction | now right]).
+  constructor.
+  - intros Hin. apply mix_In in Hin.
+    destruct (sel 0%nat); [destruct src as [|y u]|].
+    + destruct Hin as [H|H]; [contradiction | exact H].
+    + cbn [tl] in *. inversion Hs as [|? ? Hy Hu]; subst. destruct Hin as [H|H]; [|contradiction].
+      apply (Hdisj y); [now right | now left].
+    + destruct Hin as [H|H]; [contradiction|]. apply (Hdisj x); [now left | now apply Hsub].
+  - apply IH; [exact Ht | exact Hs'|]. intros z Hz Hz'. apply (Hdisj z); [now right | now apply Hsub].
+Qed.
+
+(** ReducedExchangeCrossover: children of two feasible parents are feasible, for every exchange draw *)
+Lemma rex_cross_fst_feasible cand k a b mex : feasible cand k a -> feasible cand k b -> feasible cand k (fst (rex_cross a b mex)).
+Proof.
+  intros (Hna & Hia & Hla) (Hnb & Hib & Hlb). unfold rex_cross, rex_mab. cbn [fst].
+  rewrite !compress_map_filter, assign_at_mix.
+  set (fa := fun x => negb (memZ x b)). set (fb := fun x => negb (memZ x a)).
+  set (ap := filter fa a). set (bp := filter fb b).
+  set (ap' := mix (fun r => existsb (Nat.eqb r) mex) ap bp).
+  assert (Hap : forall x, In x ap <-> In x a /\ ~ In x b) by (intros x; unfold ap, fa; rewrite filter_In, negb_true_iff, memZ_false; tauto).
+  assert (Hbp : forall x, In x bp <-> In x b /\ ~ In x a) by (intros x; unfold bp, fb; rewrite filter_In, negb_true_iff, memZ_false; tauto).
+  assert (Hperm : Permutation (scatter (map fa a) a ap') (filter (fun x => negb (fa x)) a ++ ap')).
+  { apply scatter_perm. unfold ap'. now rewrite mix_length. }
+  assert (Hap'in : forall z, In z ap' -> (In z a /\ ~ In z b) \/ (In z b /\ ~ In z a)).
+  { intros z Hz. apply mix_In in Hz as [H|H]; [left; now apply Hap | right; now apply Hbp]. }
+  assert (Hcom : forall z, In z (filter (fun x => negb (fa x)) a) <-> In z a /\ In z b).
+  { intros z. unfold fa. rewrite filter_In, negb_involutive, memZ_In. tauto. }
+  repeat split.
+  - apply (Permutation_NoDup (Permutation_sym Hperm)). apply NoDup_app_intro.
+    + now apply NoDup_filter.
+    + apply mix_NoDup; [now apply NoDup_filter | now apply NoDup_filter|]. intros x Hx Hx'. apply Hap in Hx. apply Hbp in Hx'. tauto.
+    + intros z Hz Hz'. apply Hcom in Hz. apply Hap'in in Hz'. tauto.
+  - intros z Hz. apply (Permutation_in _ Hperm) in Hz. apply in_app_or in Hz as [H|H].
+    + apply Hcom in H. now apply Hia.
+    + apply Hap'in in H as [[H _]|[H _]]; [now apply Hia | now apply Hib].
+  - now rewrite scatter_length.
+Qed.
+Lemma rex_cross_sym a b mex : snd (rex_cross a b mex) = fst (rex_cross b a mex).
+Proof. reflexivity. Qed.
+Lemma rex_cross_feasible cand k a b mex : feasible cand k a -> feasible cand k b ->
+  feasible cand k (fst (rex_cross a b mex)) /\ feasible cand k (snd (rex_cross a b mex)).
+Proof. intros Ha Hb. split; [now apply rex_cross_fst_feasible | rewrite rex_cross_sym; now apply rex_cross_fst_feasible]. Qed.
+
+(** ReducedExchangeMutation as coded: an individual drawn from the set space is returned unchanged
+    (its first mask selects the members NOT in the set space), hence stays feasible *)
+Lemma rex_mut_identity setspace x u p chosen : incl x setspace -> rex_mut setspace x u p chosen = x.
+Proof.
+  intros Hi. unfold rex_mut.
+  apply scatter_all_false. intros e He. apply negb_false_iff, memZ_In, Hi, He.
+Qed.
+Lemma rex_mut_feasible setspace k x u p chosen : feasible setspace k x -> feasible setspace k (rex_mut setspace x u p chosen).
+Proof. intros H. rewrite rex_mut_identity; [exact H | apply H]. Qed.
+Lemma rex_mut_length setspace x u p chosen : length (rex_mut setspace x u p chosen) = length x.
+Proof. unfold rex_mut. apply scatter_length. Qed.
+
+(** integer rounding keeps a value inside integer bounds *)
+Lemma rhe_bounds (lo hi : Z) (q : Q) : (inject_Z lo <= q)%Q -> (q <= inject_Z hi)%Q -> lo <= rhe q <= hi.
+Proof.
+  intros Hlo Hhi. unfold rhe.
+  pose proof (Qfloor_le q) as Hf. pose proof (Qlt_floor q) as Hf'.
+  assert (L : lo <= Qfloor q). { rewrite <- (Qfloor_Z lo). now apply Qfloor_resp_le. }
+  assert (U : Qfloor q <= hi). { rewrite <- (Qfloor_Z hi). now apply Qfloor_resp_le. }
+  assert (Up : (0 < q - inject_Z (Qfloor q))%Q -> Qfloor q + 1 <= hi).
+  { intros Hd. assert (Hlt : (inject_Z (Qfloor q) < inject_Z hi)%Q).
+    { eapply Qlt_le_trans; [|exact Hhi]. apply (Qplus_lt_l _ _ (- inject_Z (Qfloor q))). ring_simplify.
+      setoid_replace (-1 * inject_Z (Qfloor q) + q)%Q with (q - inject_Z (Qfloor q))%Q by ring. exact Hd. }
+    rewrite <- Zlt_Qlt in Hlt. lia. }
+  destruct (Qcompare_spec (q - inject_Z (Qfloor q)) (1 # 2)) as [E|Lt|Gt].
+  - destruct (Z.even (Qfloor q)); [lia|]. split; [lia|]. apply Up. rewrite E. reflexivity.
+  - lia.
+  - split; [lia|]. apply Up. eapply Qlt_trans; [|exact Gt]. reflexivity.
+Qed.
+Lemma int_round_bounds (lo hi : Z) (qs : list Q) :
+  Forall (fun q => (inject_Z lo <= q)%Q /\ (q <= inject_Z hi)%Q) qs -> Forall (fun z => lo <= z <= hi) (int_round qs).
+Proof. intros H. unfold int_round. rewrite Forall_map. eapply Forall_impl; [|exact H]. intros q [A B]. now apply rhe_bounds. Qed.
+
+(** ** corollaries for the three exact optimisers *)
+Section Corollaries.
+  Variable ev : list Z -> evalT.
+
+  Lemma climb_from_terminates cand k start fuel : NoDup cand -> feasible cand k start ->
+    (length cand ^ k <= fuel)%nat -> climb_from ev fuel cand start <> None.
+  Proof.
+    intros Hc Hf Hfuel. unfold climb_from. apply climb_terminates.
+    destruct (start_state cand k start Hc Hf) as (Hn & Hmem).
+    rewrite (Permutation_length (NoDup_Permutation Hn Hc Hmem)). destruct Hf as (_ & _ & ->). exact Hfuel.
+  Qed.
+
+  Definition climber_result cand k start (res : list Z * list Z * evalT) : Prop :=
+    let '(s', w', g') := res in
+    feasible cand k s' /\ g' = ev s' /\ Permutation (s' ++ w') cand /\
+    lexle (keyT (ev s')) (keyT (ev start)) /\
+    forall i e, (i < k)%nat -> In e cand -> ~ In e s' -> ~ lexlt (keyT (ev (set_nth i s' e))) (keyT (ev s')).
+
+  Lemma sd_minimize_spec fuel cand ix k res : NoDup cand -> NoDup ix -> (forall i, In i ix -> (i < length cand)%nat) ->
+    length ix = k -> sd_minimize ev fuel cand ix = Some res -> climber_result cand k (sample cand ix) res.
+  Proof.
+    intros Hc Hn Hr Hl E. destruct res as [[s' w'] g']. unfold sd_minimize in E.
+    apply (climb_from_spec ev fuel cand k _ s' w' g' Hc); [now apply sample_feasible | exact E].
+  Qed.
+  Lemma ssd_minimize_spec fuel cand k res : NoDup cand -> (k <= length cand)%nat ->
+    ssd_minimize ev fuel cand k = Some res -> climber_result cand k (sort_select ev cand k) res.
+  Proof.
+    intros Hc Hk E. destruct res as [[s' w'] g']. unfold ssd_minimize in E.
+    apply (climb_from_spec ev fuel cand k _ s' w' g' Hc); [now apply sort_select_feasible | exact E].
+  Qed.
+  Lemma sd_minimize_total fuel cand ix k : NoDup cand -> NoDup ix -> (forall i, In i ix -> (i < length cand)%nat) ->
+    length ix = k -> (length cand ^ k <= fuel)%nat -> sd_minimize ev fuel cand ix <> None.
+  Proof. intros Hc Hn Hr Hl Hf. apply (climb_from_terminates cand k); [exact Hc | now apply sample_feasible | exact Hf]. Qed.
+  Lemma ssd_minimize_total fuel cand k : NoDup cand -> (k <= length cand)%nat ->
+    (length cand ^ k <= fuel)%nat -> ssd_minimize ev fuel cand k <> None.
+  Proof. intros Hc Hk Hf. apply (climb_from_terminates cand k); [exact Hc | now apply sort_select_feasible | exact Hf]. Qed.
+End Corollaries.
+
+(** ** result monitor: a [true] of the boolean monitor means the propositions *)
+Lemma nondominated_b_sound F : nondominated_b F = true ->
+  forall f1 f2, In f1 F -> In f2 F -> pareto_dom f2 f1 = false.
+Proof.
+  unfold nondominated_b. rewrite forallb_forall. intros H f1 f2 H1 H2.
+  specialize (H f1 H1). rewrite forallb_forall in H. specialize (H f2 H2). now apply negb_true_iff in H.
+Qed.
+Lemma pareto_dom_spec f1 f2 : pareto_dom f1 f2 = true ->
+  length f1 = length f2 /\ (forall i, (i < length f1)%nat -> (nth i f1 0 <= nth i f2 0)%Q) /\
+  exists i, (i < length f1)%nat /\ (nth i f1 0 < nth i f2 0)%Q.
+Proof.
+  unfold pareto_dom. rewrite andb_true_iff. revert f2. induction f1 as [|x s IH]; intros [|y t]; cbn [all2 any2]; intros [A B]; try discriminate.
+  apply andb_true_iff in A as [A1 A2]. apply Qle_bool_iff in A1.
+  apply orb_true_iff in B as [B|B].
+  - assert (G : length s = length t /\ forall i, (i < length s)%nat -> (nth i s 0 <= nth i t 0)%Q).
+    { clear -A2. revert t A2. induction s as [|a s IHs]; intros [|b t] H; cbn [all2] in H; try discriminate.
+      - split; [reflexivity | intros i Hi; cbn in Hi; lia].
+      - apply andb_true_iff in H as [H1 H2]. apply Qle_bool_iff in H1. destruct (IHs t H2) as [L N].
+        split; [cbn; lia|]. intros [|i] Hi; cbn [nth]; [exact H1 | apply N; cbn in Hi; lia]. }
+    destruct G as [L N]. split; [cbn; lia|]. split.
+    + intros [|i] Hi; cbn [nth]; [exact A1 | apply N; cbn in Hi; lia].
+    + exists 0%nat. split; [cbn; lia|]. cbn [nth]. unfold qlt_bool in B. apply negb_true_iff in B.
+      apply Qnot_le_lt. intros C. apply Qle_bool_iff in C. congruence.
+  - destruct (IH t (conj A2 B)) as (L & N & (i & Hi & Hlt)). split; [cbn; lia|]. split.
+    + intros [|j] Hj; cbn [nth]; [exact A1 | apply N; cbn in Hj; lia].
+    + exists (S i). split; [cbn; lia | exact Hlt].
+Qed.
+
+(** ** MutatorA / MutatorB hill-climb step (NSGA2MutatorA/BSubsetGeneticAlgorithm) *)
+Lemma set_nth_In {A} (i : nat) : forall (l : list A) v z, In z (set_nth i l v) -> z = v \/ In z l.
+Proof.
+  induction i as [|i IH]; intros [|h t] v z H; cbn [set_nth] in H; try contradiction.
+  - destruct H as [H|H]; [now left | right; now right].
+  - destruct H as [H|H]; [right; now left|]. apply IH in H as [H|H]; [now left | right; now right].
+Qed.
+Lemma set_nth_NoDup {A} (i : nat) : forall (l : list A) v, NoDup l -> ~ In v l -> NoDup (set_nth i l v).
+Proof.
+  induction i as [|i IH]; intros [|h t] v Hn Hv; cbn [set_nth]; try constructor.
+  - intros H. apply Hv. now right.
+  - now inversion Hn.
+  - intros H. apply set_nth_In in H as [->|H]; [apply Hv; now left | now inversion Hn].
+  - apply IH; [now inversion Hn | intros H; apply Hv; now right].
+Qed.
+
+(** as coded the step does NOT preserve feasibility: with 2 of 3 candidates selected the single remaining
+    allele is written to both loci *)
+Lemma mutAB_refuted : exists (setspace x : list Z) (lociix alleleix : list nat),
+  feasible setspace 2 x /\ NoDup setspace /\
+  tiled_ok (length x) (length x) lociix = true /\ tiled_ok (length (complement setspace x)) (length x) alleleix = true /\
+  ~ NoDup (mutAB_hillclimb setspace x lociix alleleix).
+Proof.
+  exists [0; 1; 2], [0; 1], [0%nat; 1%nat], [0%nat; 0%nat].
+  split; [apply feasible_b_spec; reflexivity|]. split; [apply nodupb_NoDup; reflexivity|].
+  split; [reflexivity|]. split; [reflexivity|].
+  intros H. apply nodupb_NoDup in H. vm_compute in H. discriminate.
+Qed.
+
+(** it does when the allele draws are pairwise distinct and in range, i.e. when the number of hill-climb
+    steps does not exceed the number of unused candidates (a single tile of tiled_choice): exactly the guard
+    2*ndecn <= len(decn_space) for the default nhcstep = ndecn *)
+Lemma mutAB_row_partial (cand : list Z) (k : nat) (alleles : list Z) : forall (las : list (nat * nat)) (row : list Z),
+  NoDup alleles -> incl alleles cand ->
+  NoDup (map snd las) -> (forall la, In la las -> (snd la < length alleles)%nat) ->
+  feasible cand k row -> (forall la, In la las -> ~ In (nth (snd la) alleles 0) row) ->
+  feasible cand k (fold_left (fun r la => set_nth (fst la) r (nth (snd la) alleles 0)) las row).
+Proof.
+  induction las as [|la las IH]; intros row Ha Hi Hn Hr Hf Hfresh; cbn [fold_left]; [exact Hf|].
+  cbn [map] in Hn. inversion Hn as [|? ? Hla Hn']; subst.
+  destruct Hf as (F1 & F2 & F3).
+  apply IH; try assumption.
+  - intros la' H. apply Hr. now right.
+  - repeat split.
+    + apply set_nth_NoDup; [exact F1 | apply Hfresh; now left].
+    + intros z Hz. apply set_nth_In in Hz as [->|Hz]; [|now apply F2].
+      apply Hi, nth_In, Hr. now left.
+    + now rewrite set_nth_length.
+  - intros la' Hin Hz. apply set_nth_In in Hz as [Hz|Hz]; [|apply (Hfresh la'); [now right | exact Hz]].
+    apply (proj1 (NoDup_nth alleles 0) Ha) in Hz; [|apply Hr; now right | apply Hr; now left].
+    apply Hla. rewrite <- Hz. apply in_map, Hin.
+Qed.
+Lemma mutAB_partial (setspace x : list Z) (k : nat) (lociix alleleix : list nat) :
+  NoDup setspace -> feasible setspace k x ->
+  NoDup alleleix -> (forall j, In j alleleix -> (j < length (complement setspace x))%nat) ->
+  feasible setspace k (mutAB_hillclimb setspace x lociix alleleix).
+Proof.
+  intros Hs Hf Hn Hr. unfold mutAB_hillclimb, mutAB_row.
+  apply (mutAB_row_partial setspace k (complement setspace x)).
+  - apply NoDup_filter, Hs.
+  - intros z Hz. now apply complement_In in Hz.
+  - clear -Hn. revert alleleix Hn. induction lociix as [|l t IH]; intros [|a u] Hn; cbn [combine map]; try constructor.
+    + intros H. inversion Hn as [|? ? Ha Hu]; subst. apply Ha.
+      clear -H. revert u H. induction t as [|l' t' IHt]; intros [|a' u'] H; cbn [combine map] in H; try contradiction.
+      destruct H as [H|H]; [left; exact H | right; now apply IHt].
+    + apply IH. now inversion Hn.
+  - intros [l a] Hin. apply Hr. now apply in_combine_r in Hin.
+  - exact Hf.
+  - intros [l a] Hin Hz. cbn [snd] in *.
+    assert (Hc : In (nth a (complement setspace x) 0) (complement setspace x)).
+    { apply nth_In, Hr. now apply in_combine_r in Hin. }
+    apply complement_In in Hc. tauto.
+Qed.
